@@ -56,6 +56,14 @@ Section WithApi.
     forallb (fun k => is_ok (todo_lookup k t_todo_messages)) raisable_keys = true.
   Proof. vm_compute. reflexivity. Qed.
 
+  (* the keys the model raises are exactly the keys the source raises (read off every _current_todo_msgs.add site) *)
+  Definition source_raised_keys : list str :=
+    t_raised_todo_literals ++ (match t_raised_todo_by_name_sites with O => [] | S _ => t_many_args_names end).
+  Lemma model_raises_source_keys :
+    forallb (fun k => mem_str k raisable_keys) source_raised_keys &&
+    forallb (fun k => mem_str k source_raised_keys) raisable_keys = true.
+  Proof. vm_compute. reflexivity. Qed.
+
   Lemma create_todo_msg_total indent s :
     Forall (fun k => In k raisable_keys) (g_todos s) -> exists x s', create_todo_msg indent s = Ok (x, s').
   Proof.
